@@ -22,7 +22,7 @@ async fn open_epoch(s: &mut Sim, g: &mut G) -> u64 {
 }
 
 async fn run(mut s: Sim, mut rng: Rng, _len: usize) -> Sim {
-    let which = ((s.n >> 32) - 1) % 19;   // history id: consecutive histories run the scripts in turn
+    let which = ((s.n >> 32) - 1) % 22;   // history id: consecutive histories run the scripts in turn
     if (7..12).contains(&which) { return unconfigured(s, rng, which).await; }
     if which == 17 { return feature_unconfigured(s, rng).await; }
     let mut g = bootstrap_with(&mut s, &mut rng, None).await;
@@ -247,6 +247,63 @@ async fn run(mut s: Sim, mut rng: Rng, _len: usize) -> Sim {
                 let ix = s.rd_configure_contributor_recipients(&mgr, &svc, &l); s.op(tx(vec![ix])).await;
             }
         }
+        19 => { // C12 / C10: one validator written off twice (epoch 0 into 1, epoch 1 into 2): each absorbing epoch books exactly the amount;
+                // epoch 2 (total 300, 200 absorbed) still has 100 collectible, so its rewards cannot be finalized with the null root
+            let (e0, e1, e2) = (open_epoch(&mut s, &mut g).await, open_epoch(&mut s, &mut g).await, open_epoch(&mut s, &mut g).await);
+            let (poor, rich) = (g.nodes[6].clone(), g.nodes[0].clone());
+            let t0 = s.def_tree(0, vec![Leaf::Debt { node: poor.clone(), amount: 100 }]);
+            let t1 = s.def_tree(0, vec![Leaf::Debt { node: poor.clone(), amount: 200 }]);
+            let t2 = s.def_tree(0, vec![Leaf::Debt { node: rich.clone(), amount: 300 }]);
+            for (e, t, total) in [(e0, &t0, 100u64), (e1, &t1, 200), (e2, &t2, 300)] {
+                let ix = s.rd_configure_debt(&g.debt_acc, e, 1, total, t.root); s.op(tx(vec![ix])).await;
+                let ix = s.rd_finalize_debt(&g.debt_acc, e, &g.payer); s.op(tx(vec![ix])).await;
+                let ix = s.rd_enable_write_off(e, &g.payer); s.op(tx(vec![ix])).await;
+            }
+            let p0 = s.proof(&t0, 0).unwrap(); let p1 = s.proof(&t1, 0).unwrap();
+            let ix = s.rd_write_off(&g.debt_acc, e0, &poor, e1, 100, &p0); s.op(tx(vec![ix])).await;
+            let ix = s.rd_write_off(&g.debt_acc, e1, &poor, e2, 200, &p1); s.op(tx(vec![ix])).await;
+            let _ = open_epoch(&mut s, &mut g).await;
+            let ix = s.rd_finalize_rewards(&g.payer, e2); s.op(tx(vec![ix])).await;          // null root, 100 still collectible: refused
+            let rt = s.def_tree(1, vec![Leaf::Reward { contributor: g.svcs[0].clone(), unit_share: 1_000_000_000, packed: 0 }]);
+            let ix = s.rd_configure_rewards(&g.rew_acc, e2, 1, rt.root); s.op(tx(vec![ix])).await;
+            let ix = s.rd_finalize_rewards(&g.payer, e2); s.op(tx(vec![ix])).await;          // with a root: accepted
+        }
+        20 => { // C05: two epochs ready to be swept (no debt, direct 2Z): the later one first is refused, then both in order
+            // C15 / C14: first the burn-rate schedule is changed through the update path (no initial rate): the change is in force afterwards
+            let ix = s.rd_configure(&g.admin, RdSetting::BurnRate(950_000_000, 2, 4, None)); s.op(tx(vec![ix])).await;
+            let ja = K::Ata(b(&K::RdJournal), b(&K::Mint));
+            let mut eps = vec![];
+            for amt in [4_000u64, 6_000] { s.op(Op::MintTo(ja.clone(), amt)).await; eps.push(open_epoch(&mut s, &mut g).await); }
+            let rt = s.def_tree(1, vec![Leaf::Reward { contributor: g.svcs[0].clone(), unit_share: 1_000_000_000, packed: 0 }]);
+            for &e in &eps {
+                let t = s.def_tree(0, vec![]);
+                let ix = s.rd_configure_debt(&g.debt_acc, e, 0, 0, t.root); s.op(tx(vec![ix])).await;
+                let ix = s.rd_finalize_debt(&g.debt_acc, e, &g.payer); s.op(tx(vec![ix])).await;
+                let ix = s.rd_configure_rewards(&g.rew_acc, e, 1, rt.root); s.op(tx(vec![ix])).await;
+            }
+            let _ = open_epoch(&mut s, &mut g).await;
+            for &e in &eps { let ix = s.rd_finalize_rewards(&g.payer, e); s.op(tx(vec![ix])).await; }
+            for e in [eps[1], eps[0], eps[0], eps[1]] { let ix = s.rd_sweep(e, &K::SwapMock, &g.fills); s.op(tx(vec![ix])).await; }
+        }
+        21 => { // C12 / C05: an epoch whose whole debt was written off finalizes with the null root; its sweep is a no-op even though the swapped
+                // pool (fed by another epoch) and a matching fill would allow a purchase of exactly its total debt
+            let (e0, e1) = (open_epoch(&mut s, &mut g).await, open_epoch(&mut s, &mut g).await);
+            let (poor, rich) = (g.nodes[6].clone(), g.nodes[0].clone());
+            let t0 = s.def_tree(0, vec![Leaf::Debt { node: poor.clone(), amount: 700 }]);
+            let t1 = s.def_tree(0, vec![Leaf::Debt { node: rich.clone(), amount: 700 }]);
+            for (e, t) in [(e0, &t0), (e1, &t1)] {
+                let ix = s.rd_configure_debt(&g.debt_acc, e, 1, 700, t.root); s.op(tx(vec![ix])).await;
+                let ix = s.rd_finalize_debt(&g.debt_acc, e, &g.payer); s.op(tx(vec![ix])).await;
+            }
+            let ix = s.rd_enable_write_off(e0, &g.payer); s.op(tx(vec![ix])).await;
+            let p0 = s.proof(&t0, 0).unwrap(); let ix = s.rd_write_off(&g.debt_acc, e0, &poor, e0, 700, &p0); s.op(tx(vec![ix])).await;
+            s.op(Op::Airdrop(K::RdDeposit(b(&rich)), 700)).await;
+            let p1 = s.proof(&t1, 0).unwrap(); let ix = s.rd_pay(e1, &rich, 700, &p1); s.op(tx(vec![ix])).await;
+            let _ = open_epoch(&mut s, &mut g).await;
+            let ix = s.rd_finalize_rewards(&g.payer, e0); s.op(tx(vec![ix])).await;          // null root, nothing collectible: accepted
+            let ix = s.sw_buy(&g.fills, &K::Ata(b(&g.buyer), b(&K::Mint)), &g.buyer, &g.users[8], 9_999, 700); s.op(tx(vec![ix])).await;
+            let ix = s.rd_sweep(e0, &K::SwapMock, &g.fills); s.op(tx(vec![ix])).await;       // no-op: pool, registry and custody untouched
+        }
         18 => { // C08 / C07: one operations wallet holds the admin role AND the debt-accountant, rewards-accountant and contributor-manager
                 // roles: while paused the admin may administer, but the role-gated instructions it signs are still refused
             let admin = g.admin.clone();
@@ -302,6 +359,8 @@ async fn run(mut s: Sim, mut rng: Rng, _len: usize) -> Sim {
             let rt = s.def_tree(1, rl.clone());
             let ix = s.rd_configure_rewards(&g.rew_acc, e, 3, rt.root); s.op(tx(vec![ix])).await;
             let _ = open_epoch(&mut s, &mut g).await;
+            // C11: a lamport surplus already on the account does not reduce what the payer prepays at finalisation (fee x contributors)
+            s.op(Op::Airdrop(K::RdDist(e), 50_000)).await;
             // C04: a zero-debt sweep (no swap needed) of the epoch the pointer names, before rewards are final: refused
             let ix = s.rd_sweep(e, &K::SwapMock, &g.fills); s.op(tx(vec![ix])).await;
             let ix = s.rd_finalize_rewards(&g.payer, e); s.op(tx(vec![ix])).await;
@@ -320,6 +379,12 @@ async fn run(mut s: Sim, mut rng: Rng, _len: usize) -> Sim {
                 let p = s.proof(&rt, idx).unwrap();
                 let ix = s.rd_distribute(e, &v, &g.relayer, &recs, 250_000_000, 0, &p); s.op(tx(vec![ix])).await;
             }
+            // C16: a table of four entries replaced by one of two: the stored table is exactly the new list
+            { let (v3, m3) = (g.svcs[3].clone(), g.users[9].clone());
+              let ix = s.rd_set_rewards_manager(&g.cmgr, &v3, &m3); s.op(tx(vec![ix])).await;
+              let four: Vec<(K, u16)> = (0..4).map(|j| (K::User(330 + j), 2_500u16)).collect();
+              let two: Vec<(K, u16)> = (0..2).map(|j| (K::User(340 + j), 5_000u16)).collect();
+              for rec in [four, two] { let ix = s.rd_configure_contributor_recipients(&m3, &v3, &rec); s.op(tx(vec![ix])).await; } }
             // block, block again (a retry), then the contributor manager tries to replace the rewards manager: still refused
             let (v2, m2) = (g.svcs[2].clone(), g.users[9].clone());
             let ix = s.rd_set_rewards_manager(&g.cmgr, &v2, &m2); s.op(tx(vec![ix])).await;
